@@ -100,7 +100,7 @@ class table_dict:
 # ------------------------------------------------------------------------------------------ add_*
 @contract('pydbml.database:Database.add_sticky_note')
 class add_sticky_note:
-    properties = ('C09',)
+    properties = ('C09', 'C16')
     params = {'self': 'Database', 'obj': 'StickyNote'}
 
     def requires_inv(self, obj):
@@ -121,7 +121,7 @@ class add_sticky_note:
 
 @contract('pydbml.database:Database.add_table')
 class add_table:
-    properties = ('C09', 'C06', 'C05')
+    properties = ('C09', 'C06', 'C05', 'C16')
     params = {'self': 'Database', 'obj': 'Table'}
 
     def requires_inv(self, obj):
@@ -156,7 +156,7 @@ def ref_touches(db, ref):
 
 @contract('pydbml.database:Database.add_reference')
 class add_reference:
-    properties = ('C09', 'C06')
+    properties = ('C09', 'C06', 'C16')
     params = {'self': 'Database', 'obj': 'Reference'}
 
     def requires_inv(self, obj):
@@ -180,7 +180,7 @@ class add_reference:
 
 @contract('pydbml.database:Database.add_enum')
 class add_enum:
-    properties = ('C09', 'C06')
+    properties = ('C09', 'C06', 'C16')
     params = {'self': 'Database', 'obj': 'Enum'}
 
     def requires_inv(self, obj):
@@ -204,7 +204,7 @@ class add_enum:
 
 @contract('pydbml.database:Database.add_table_group')
 class add_table_group:
-    properties = ('C09', 'C06')
+    properties = ('C09', 'C06', 'C16')
     params = {'self': 'Database', 'obj': 'TableGroup'}
 
     def requires_inv(self, obj):
@@ -228,7 +228,7 @@ class add_table_group:
 
 @contract('pydbml.database:Database.add_project')
 class add_project:
-    properties = ('C09',)
+    properties = ('C09', 'C16')
     params = {'self': 'Database', 'obj': 'Project'}
 
     def requires_inv(self, obj):
@@ -449,7 +449,7 @@ def is_supported(obj):
 class db_add:
     """Dispatch: `add(obj)` behaves exactly as the add_* method of obj's kind (whose contracts carry
     C09/C06); anything else is refused with DatabaseValidationError and nothing is written."""
-    properties = ('C09', 'C06')
+    properties = ('C09', 'C06', 'C16')
     params = {'self': 'Database', 'obj': 'Union[Table,Reference,Enum,TableGroup,Project,StickyNote,Expression,str,int,None]'}
 
     def requires_inv(self, obj):
